@@ -49,17 +49,42 @@ var flagOrder = []struct {
 }
 
 // flagListFields: field names, in order, of the []bool composite literal returned by fn.
-func flagListFields(c *Ctx, fn string) ([]string, token.Pos, error) {
+func flagListFields(c *Ctx, fn string, srcType string) ([]string, token.Pos, error) {
 	p, fd := c.FuncDecl(langserverPkg, "", fn)
-	if fd == nil {
+	var roots []ast.Node
+	if fd != nil {
+		roots = []ast.Node{fd.Body}
+	} else if p = c.ByPath[langserverPkg]; p != nil {
+		// the helper was inlined into its caller: the list is the []bool literal of the package whose elements are
+		// fields of a srcType value
+		for _, f := range p.Syntax {
+			roots = append(roots, f)
+		}
+	}
+	if p == nil || len(roots) == 0 {
 		return nil, token.NoPos, fmt.Errorf("slot unresolved: langserver.%s", fn)
 	}
 	var out []string
 	var pos token.Pos
-	ast.Inspect(fd.Body, func(n ast.Node) bool {
+	for _, root := range roots {
+	ast.Inspect(root, func(n ast.Node) bool {
 		cl, ok := n.(*ast.CompositeLit)
 		if !ok || out != nil {
 			return true
+		}
+		if fd == nil {
+			// fallback search: at least 20 elements, the first one a field of srcType
+			if len(cl.Elts) < 20 {
+				return true
+			}
+			sel, ok := ast.Unparen(cl.Elts[0]).(*ast.SelectorExpr)
+			if !ok {
+				return true
+			}
+			bt, ok := p.TypesInfo.Types[sel.X]
+			if !ok || namedName(bt.Type) != srcType {
+				return true
+			}
 		}
 		tv, ok := p.TypesInfo.Types[cl]
 		if !ok {
@@ -83,6 +108,7 @@ func flagListFields(c *Ctx, fn string) ([]string, token.Pos, error) {
 		}
 		return false
 	})
+	}
 	if out == nil {
 		return nil, token.NoPos, fmt.Errorf("slot unresolved: []bool literal in langserver.%s", fn)
 	}
@@ -107,8 +133,8 @@ var ruleCfgG1 = &Rule{
 	Text: "the two positional flag lists — getCheckFlagList (initialize) and getWarnCheckList (didChangeConfiguration) — name the same 26 settings in the same order, that order is the documented one, the JSON tags of both source structs carry the setting's name, and position i maps to the diagnostic type whose constant value is i (CheckErrorSyntax..: dense 1..25)",
 	Run: func(c *Ctx) []Ob {
 		var obs []Ob
-		a, posA, errA := flagListFields(c, "getCheckFlagList")
-		b, posB, errB := flagListFields(c, "getWarnCheckList")
+		a, posA, errA := flagListFields(c, "getCheckFlagList", "InitializationOptions")
+		b, posB, errB := flagListFields(c, "getWarnCheckList", "WarnParams")
 		if errA != nil || errB != nil {
 			return []Ob{{Key: "CFG/G1:slots", Verdict: UNDECIDED, Note: fmt.Sprint(errA, errB)}}
 		}
